@@ -54,6 +54,7 @@ def run_real(scn, choose):
         import random as _random
         sched.fine = _random.Random(scn["fine_seed"])
         sched.fine_p = scn.get("fine_p", 0.15)
+        sched.fine_focus = set(scn.get("fine_focus") or []) or None
         sched.max_chunks = 200000
     sock = shim.Socket()
     saved = shim.install(sched, sock, cpu=8)
